@@ -179,6 +179,10 @@ def templates():
     add('dims-xy-xy-2x2', 'align_n', 'thorough', cost=50, specs=[[['x', 'y'], [2, 2]], [['x', 'y'], [2, 2]]])
     add('dims-xy-xy-2x2-small', 'align_n', cost=6, specs=[[['x', 'y'], [2, 2]], [['x', 'y'], [2, 1]]])
     add('dims-xy-xy-both-differ', 'align_n', cost=6, specs=[[['x', 'y'], [1, 2]], [['x', 'y'], [2, 1]]])
+    # axis= a single dimension whose name contains / is contained in the name of another dimension
+    add('axis-name-substring-long', 'align_n', cost=2, specs=[[['t', 'time'], [2, 2]], [['t', 'time'], [2, 2]]], axis='time')
+    add('axis-name-substring-short', 'align_n', cost=2, specs=[[['t', 'time'], [2, 2]], [['time', 't'], [2, 2]]], axis='t')
+    add('axis-name-substring-x0', 'align_n', cost=2, specs=[[['x', 'x0'], [2, 1]], [['x0', 'x'], [2, 2]]], axis='x0', join='inner')
     # axis= a single dimension
     for sort in (False, True):
         add('axis-x-%s' % sort, 'align_n', cost=2, specs=[[['x', 'y'], [2, 2]], [['x', 'y'], [2, 2]]], axis='x', sort=sort)
